@@ -68,6 +68,8 @@ type Ctx struct {
 	pre      *State
 	curSpec  *specRun
 	modSink  *[]modTarget
+	wfDone   map[*Term]bool
+	sliceTerms map[*Term]bool
 }
 
 type InputVar struct {
@@ -120,6 +122,9 @@ type Frame struct {
 	marker   *markerInfo
 	defers   []*ssa.Defer
 	deferArgs []deferRec
+	baseReach *Term
+	absBase  *Term // absolute path condition at frame entry; curReach is relative to it
+	entryReach map[*ssa.BasicBlock]*Term
 }
 
 type markerInfo struct {
@@ -146,7 +151,7 @@ func (c *Ctx) oblige(fr *Frame, kind, detail string, cond *Term, pos token.Pos) 
 	}
 	reach := TTrue
 	if fr != nil {
-		reach = fr.curReach
+		reach = fr.abs()
 	}
 	goal := Implies(reach, cond)
 	if goal == TTrue {
@@ -331,7 +336,9 @@ func (c *Ctx) runFunc(fn *ssa.Function, args []Val, bindings []Val, st *State, r
 	c.stack = append(c.stack, fn)
 	defer func() { c.stack = c.stack[:len(c.stack)-1] }()
 
-	fr.pending[fn.Blocks[0]] = []EdgeRec{{to: fn.Blocks[0], cond: reach, st: st}}
+	fr.baseReach = reach
+	fr.absBase = reach
+	fr.pending[fn.Blocks[0]] = []EdgeRec{{to: fn.Blocks[0], cond: TTrue, st: st}}
 	fr.runRegion(nil)
 
 	if len(fr.rets) == 0 {
@@ -483,6 +490,41 @@ func (fr *Frame) runRegion(li *LoopInfo) {
 	}
 }
 
+// postDominates: every path from d to a function exit passes through j (back edges ignored).
+func (fr *Frame) postDominates(j, d *ssa.BasicBlock) bool {
+	if j == d {
+		return true
+	}
+	seen := map[*ssa.BasicBlock]bool{j: true}
+	stack := []*ssa.BasicBlock{d}
+	for len(stack) > 0 {
+		x := stack[len(stack)-1]
+		stack = stack[:len(stack)-1]
+		if seen[x] {
+			continue
+		}
+		seen[x] = true
+		if len(x.Succs) == 0 {
+			return false
+		}
+		for _, s := range x.Succs {
+			if s.Dominates(x) {
+				continue // back edge
+			}
+			stack = append(stack, s)
+		}
+	}
+	return true
+}
+
+// abs is the absolute path condition of the current point.
+func (fr *Frame) abs() *Term {
+	if fr.absBase == nil {
+		return fr.curReach
+	}
+	return And(fr.absBase, fr.curReach)
+}
+
 func (fr *Frame) takeIncoming(b *ssa.BasicBlock) []EdgeRec {
 	in := fr.pending[b]
 	delete(fr.pending, b)
@@ -502,6 +544,18 @@ func (fr *Frame) enterBlock(b *ssa.BasicBlock, in []EdgeRec, phiOverride map[*ss
 		sts = append(sts, r.st)
 	}
 	fr.curReach = Or(conds...)
+	if fr.spec {
+		// pure spec code: a block that post-dominates its immediate dominator is reached exactly when that one is
+		if d := b.Idom(); d != nil && fr.entryReach != nil {
+			if r, ok := fr.entryReach[d]; ok && fr.postDominates(b, d) {
+				fr.curReach = r
+			}
+		}
+	}
+	if fr.entryReach == nil {
+		fr.entryReach = map[*ssa.BasicBlock]*Term{}
+	}
+	fr.entryReach[b] = fr.curReach
 	fr.cur = mergeStates(conds, sts)
 	// live-out values of unrolled loops
 	live := map[ssa.Value]bool{}
@@ -688,6 +742,7 @@ func (fr *Frame) runLoop(li *LoopInfo) {
 		measure0 = fr.evalLoopSpec(li, ls, "assume", nil)
 	}
 	fr.curReach = entryReach
+	retsBefore := len(fr.rets)
 	// body
 	fr.execBlock(h)
 	fr.runRegion(li)
@@ -716,6 +771,33 @@ func (fr *Frame) runLoop(li *LoopInfo) {
 	}
 	// post-hoc definitions of the epoch variables
 	fr.resolveEpoch(ep, sIn, backs)
+	// states leaving the loop continue in the enclosing epoch with every touched key explicit
+	norm := func(st *State) *State {
+		if st.epoch != ep {
+			return st
+		}
+		ns := &State{m: map[string]*Term{}, epoch: sIn.epoch}
+		for k, v := range sIn.m {
+			ns.m[k] = v
+		}
+		for k, v := range ep.vars {
+			ns.m[k] = v
+		}
+		for k, v := range st.m {
+			ns.m[k] = v
+		}
+		return ns
+	}
+	for to, recs := range fr.pending {
+		for i := range recs {
+			if recs[i].from != nil && li.blocks[recs[i].from] && !li.blocks[to] {
+				recs[i].st = norm(recs[i].st)
+			}
+		}
+	}
+	for i := retsBefore; i < len(fr.rets); i++ {
+		fr.rets[i].st = norm(fr.rets[i].st)
+	}
 	// phis that are never changed on any back edge keep their entry value
 	for phi, hv := range phiHavoc {
 		same := true
@@ -760,9 +842,15 @@ func (c *Ctx) typeAssume(x *Term, t types.Type, reach *Term) {
 	switch u := t.Underlying().(type) {
 	case *types.Slice:
 		c.assume(sliceWF(x))
+		if !hasBound(x) {
+			c.sliceTerms[x] = true
+		}
 	case *types.Basic:
 		if u.Info()&types.IsString != 0 {
 			c.assume(sliceWF(x))
+			if !hasBound(x) {
+				c.sliceTerms[x] = true
+			}
 		}
 	case *types.Struct:
 		if opaqueStruct(t) {
@@ -862,10 +950,21 @@ func (fr *Frame) autoInduction(li *LoopInfo, phis map[*ssa.Phi]Val, in []EdgeRec
 		}
 		signed := isSigned(phi.Type())
 		guardOK := false
-		if step == 1 && cmp.X == ssa.Value(phi) && (cmp.Op == token.LSS || cmp.Op == token.LEQ && false) && li.blocks[li.header.Succs[0]] {
+		isPhiOrNext := func(v ssa.Value) bool {
+			if v == ssa.Value(phi) {
+				return true
+			}
+			if bo, ok := v.(*ssa.BinOp); ok && bo.X == ssa.Value(phi) && (bo.Op == token.ADD || bo.Op == token.SUB) {
+				if _, ok := bo.Y.(*ssa.Const); ok && bo.Block() == li.header {
+					return true
+				}
+			}
+			return false
+		}
+		if step == 1 && isPhiOrNext(cmp.X) && cmp.Op == token.LSS && li.blocks[li.header.Succs[0]] && signed {
 			guardOK = true
 		}
-		if step == -1 && cmp.X == ssa.Value(phi) && (cmp.Op == token.GEQ || cmp.Op == token.GTR) && li.blocks[li.header.Succs[0]] {
+		if step == -1 && isPhiOrNext(cmp.X) && (cmp.Op == token.GEQ || cmp.Op == token.GTR) && li.blocks[li.header.Succs[0]] && signed {
 			guardOK = true
 		}
 		if !guardOK {
@@ -886,9 +985,16 @@ func (fr *Frame) autoInduction(li *LoopInfo, phis map[*ssa.Phi]Val, in []EdgeRec
 			le, ge = "bvsle", "bvsge"
 		}
 		if step == 1 {
-			fr.ctx.assume(Implies(fr.curReach, BVCmp(ge, hv.T, start)))
+			fr.ctx.assume(Implies(fr.abs(), BVCmp(ge, hv.T, start)))
+			// range loops: index in [-1, n)
+			if phi.Comment == "rangeindex" && cmp.X != ssa.Value(phi) {
+				if _, defined := fr.vals[cmp.Y]; defined || isConst(cmp.Y) {
+					lim := fr.term(cmp.Y)
+					fr.ctx.assume(Implies(fr.abs(), Or(Eq(hv.T, start), BVCmp("bvslt", hv.T, lim))))
+				}
+			}
 		} else {
-			fr.ctx.assume(Implies(fr.curReach, BVCmp(le, hv.T, start)))
+			fr.ctx.assume(Implies(fr.abs(), BVCmp(le, hv.T, start)))
 		}
 	}
 }
@@ -1107,14 +1213,14 @@ func (fr *Frame) evalLoopSpec(li *LoopInfo, ls *LoopSpec, mode string, _ interfa
 	var measure *Term
 	tag := fmt.Sprintf("loop%d", li.ordinal)
 	h := li.header
-	c.runSpecFunc(gen, args, fr.cur, fr.curReach, fr, func(kind string, cond *Term, label string, pos token.Pos) {
+	c.runSpecFunc(gen, args, fr.cur, fr.abs(), fr, func(kind string, cond *Term, label string, pos token.Pos) {
 		switch kind {
 		case "invariant":
 			switch mode {
 			case "entry":
 				c.oblige(fr, tag+"-inv-entry", label, cond, h.Instrs[0].Pos())
 			case "assume":
-				c.assume(Implies(fr.curReach, cond))
+				c.assume(Implies(fr.abs(), cond))
 			case "back":
 				c.oblige(fr, tag+"-inv-preserved", label, cond, h.Instrs[0].Pos())
 			}
